@@ -357,7 +357,7 @@ impl Prop for C03Prop {
             }
         }
         // uniformly weighted or uniformly unweighted, never mixed (as the property restricts)
-        let regime = *rng.pick(&[gen::WeightRegime::AllNan, gen::WeightRegime::Dyadic, gen::WeightRegime::Dyadic, gen::WeightRegime::SmallInt, gen::WeightRegime::Nasty, gen::WeightRegime::Tiny, gen::WeightRegime::NearEqual]);
+        let regime = *rng.pick(&[gen::WeightRegime::AllNan, gen::WeightRegime::Dyadic, gen::WeightRegime::Dyadic, gen::WeightRegime::SmallInt, gen::WeightRegime::Nasty, gen::WeightRegime::Tiny, gen::WeightRegime::NearEqual, gen::WeightRegime::MostlyOnes]);
         let o = gen::HistOpts { specs, max_ops: 20, regime, derived: false, restart: rng.chance(1, 2), names_min: 3, names_max: 6, dup_bias: 45, big: rng.chance(1, 200) };
         let mut wr = Rng::new(seed, "workload");
         case.ops = gen::gen_history(&mut wr, &o);
